@@ -10,7 +10,9 @@
 (*        belongs to no session or exchange)                               *)
 (*  DevInit(s, e)  the device's own application opened exchange e on       *)
 (*        session s (the device is its initiator) and sent a message on it *)
-(*  AppRx(x, role, minit, s, ex, ts, tag, t)  handler x on the exchange it *)
+(*  AppRx(x, role, opening, waited, minit, s, ex, ts, tag, t)  handler x   *)
+(*        (opening: this is the message that opened the exchange; waited:  *)
+(*        ms the message had been in the device's receive buffer) on the   *)
 (*        accepted (role "rsp") - or the device's own application on the   *)
 (*        exchange it initiated (role "ini") -, session s, id ex, received *)
 (*        a message that was sent on session ts, exchange tag, with        *)
@@ -25,7 +27,8 @@
 (*        device has removed on its own                                    *)
 (***************************************************************************)
 EXTENDS Integers, FiniteSets, Sequences
-CONSTANT TRecover       \* ms within which a fresh request must be answered after the disturbance
+CONSTANTS TRecover,      \* ms within which a fresh request must be answered after the disturbance
+          AcceptDeadline \* ms: a message that opens an exchange and is not accepted by then is discarded (with a margin)
 
 Fresh == [devInit |-> {},           \* <<session, exchange id>> of the exchanges the device itself initiated
           opened |-> {},            \* <<session, exchange id>> for which a secured initiator message arrived
@@ -47,8 +50,9 @@ AfterInj(kind, ss, e, init, rel, t, s) ==
 \* was opened by an initiator message
 \* ... and the role: a message with the initiator flag belongs to an exchange the peer opened (we are its responder),
 \* one without it to an exchange we opened - the same id may be in use in both roles on one session
-AppRxOk(x, role, minit, ss, ex, ts, tag, t, s) ==
+AppRxOk(x, role, opening, waited, minit, ss, ex, ts, tag, t, s) ==
   /\ ts = ss /\ tag = ex
+  /\ opening => waited <= AcceptDeadline          \* UnclaimedIsDiscarded: not accepted within the deadline = never delivered
   /\ IF role = "rsp" THEN <<ss, ex>> \in s.opened /\ minit
      ELSE <<ss, ex>> \in s.devInit /\ ~minit
 DevInitOk(ss, e, s) == TRUE
